@@ -14,6 +14,7 @@ import (
 	"math/rand"
 	"os"
 	"os/exec"
+	"sort"
 	"strconv"
 	"strings"
 	"sync"
@@ -21,12 +22,28 @@ import (
 	fileseq "github.com/justinfx/gofileseq/v2"
 )
 
-func workload(seed int64, calls int) uint64 {
+// mkdir creates the goroutine's own directory: two sequences, a plain file, links to files and
+// to a directory (every scan of it goes through the symlink branch more than once)
+func mkdir(root string, i int) string {
+	d := fmt.Sprintf("%s/g%02d", root, i)
+	os.MkdirAll(d+"/sub", 0o755)
+	for _, n := range []string{"a.0001.exr", "a.0002.exr", "a.0004.exr", "b.7.jpg", "b.8.jpg", "notes.txt", ".hid.1.x"} {
+		os.WriteFile(d+"/"+n, nil, 0o644)
+	}
+	os.Symlink(d+"/a.0001.exr", d+"/a.0005.exr")
+	os.Symlink(d+"/notes.txt", d+"/l.1.txt")
+	os.Symlink(d+"/b.7.jpg", d+"/l.2.txt")
+	os.Symlink(d+"/sub", d+"/sublink")
+	return d
+}
+
+func workload(seed int64, calls int, dir string) uint64 {
 	r := rand.New(rand.NewSource(seed))
 	h := fnv.New64a()
 	add := func(s string) { h.Write([]byte(s)); h.Write([]byte{0}) }
 	ranges := []string{"1-10", "10-1x3", "1-20y3,30", "5,4,3", "1-9:3", " 1 - 5 #", "bad", "1-5x0"}
-	seqs := []string{"/a/b.1-10#.exr", "c.%04d.jpg", "x.$F3.tif", "u.<UDIM>.tx", "/d/e.0012.png", "plain.txt", "f.1-3@@.e"}
+	seqs := []string{"/a/b.1-10#.exr", "c.%04d.jpg", "x.$F3.tif", "u.<UDIM>.tx", "/d/e.0012.png", "plain.txt", "f.1-3@@.e",
+		"/w/wide.5-9#####.exr", "/w/p.1-3%018d.tif", "/w/t.1712345678001234567.exr", "/w/h.2-4$F21.bgeo"}
 	for i := 0; i < calls; i++ {
 		switch r.Intn(8) {
 		case 0:
@@ -44,6 +61,8 @@ func workload(seed int64, calls int) uint64 {
 				add("err")
 			} else {
 				add(s.String() + s.Index(0) + fmt.Sprint(s.ZFill()))
+				fr, _ := s.Frame(r.Intn(100000))
+				add(fr + s.FrameRangePadded())
 				s.SetPaddingStyle(fileseq.PadStyle(1 - int(st)))
 				add(s.String())
 				f, _ := s.Format("{{dir}}{{base}}{{frange}}{{pad}}{{ext}} {{len}}")
@@ -59,7 +78,7 @@ func workload(seed int64, calls int) uint64 {
 		case 3:
 			add(fileseq.PadFrameRange(ranges[r.Intn(len(ranges))], r.Intn(6)))
 		case 4:
-			add(fileseq.FramesToFrameRange([]int{r.Intn(5), 7 + r.Intn(3), 20, 22, 24}, r.Intn(2) == 0, r.Intn(5)))
+			add(fileseq.FramesToFrameRange([]int{r.Intn(5), 7 + r.Intn(3), 20, 22, 24}, r.Intn(2) == 0, []int{0, 1, 2, 3, 4, 9, 16, 17, 18, 23, 40}[r.Intn(11)]))
 		case 5:
 			paths := []string{"/x/a.1.exr", "/x/a.2.exr", "/x/a.03.exr", "/x/b.txt", "/x/.h.1.exr"}
 			opts := []fileseq.FileOption{fileseq.SingleFiles}
@@ -84,16 +103,22 @@ func workload(seed int64, calls int) uint64 {
 			}
 			add(strings.Join(ss, ","))
 		case 6:
-			add(fileseq.PaddingChars(r.Intn(9)))
+			add(fileseq.PaddingChars(r.Intn(26)))
 		default:
-			dir := os.Getenv("RACER_DIR")
 			if dir != "" {
 				l, err := fileseq.FindSequencesOnDisk(dir, fileseq.SingleFiles)
-				add(fmt.Sprint(len(l), err == nil))
+				var ss []string
+				for _, s := range l {
+					ss = append(ss, s.String())
+				}
+				sort.Strings(ss)
+				add(strings.Join(ss, ",") + fmt.Sprint(err == nil))
 				s, err := fileseq.FindSequenceOnDisk(dir + "/a.#.exr")
 				if err == nil && s != nil {
 					add(s.String())
 				}
+				lf, err := fileseq.ListFiles(dir)
+				add(fmt.Sprint(len(lf), err == nil))
 			}
 		}
 	}
@@ -101,6 +126,16 @@ func workload(seed int64, calls int) uint64 {
 }
 
 func child(seed int64, g, calls int) {
+	root, err := os.MkdirTemp("", "gfsR")
+	if err != nil {
+		fmt.Println("same=setup-failed")
+		return
+	}
+	defer os.RemoveAll(root)
+	dirs := make([]string, g)
+	for i := range dirs {
+		dirs[i] = mkdir(root, i) // plain os calls only: the library is still cold
+	}
 	results := make([]uint64, g)
 	start := make(chan struct{})
 	var wg sync.WaitGroup
@@ -109,14 +144,14 @@ func child(seed int64, g, calls int) {
 		go func(i int) {
 			defer wg.Done()
 			<-start
-			results[i] = workload(seed+int64(i)*104729, calls)
+			results[i] = workload(seed+int64(i)*104729, calls, dirs[i])
 		}(i)
 	}
 	close(start) // the very first library calls of the process happen concurrently
 	wg.Wait()
 	same := 1
 	for i := 0; i < g; i++ {
-		if workload(seed+int64(i)*104729, calls) != results[i] {
+		if workload(seed+int64(i)*104729, calls, dirs[i]) != results[i] {
 			same = 0
 		}
 	}
